@@ -1,4 +1,4 @@
-import GrolProofs.EvalOps
+import GrolProofs.EvalSafeEnv
 /-
 C04 — automatic memoization is unobservable.
 
@@ -7,7 +7,9 @@ produces the same outputs, results and errors on every session (`C04.Statement`)
 proved (and is false of the unchanged code for the recorded finding classes, see DESIGN.md);
 what is proved here are the facts about the cache itself that the property's second sentence
 names: with the switch off nothing is looked up or stored; a lookup returns exactly what was
-stored for an equal key.
+stored for an equal key (`set_get`); a hit replays the stored output and returns the stored result
+without touching anything else (`replay`); an entry is stored only when the callee frame's miss
+counter did not move and the result is not an error (`store_condition`).
 -/
 namespace Grol.E
 
@@ -35,5 +37,143 @@ theorem C04.off_set (key : String) (args : List Obj) (res : Obj) (out : Grol.Wir
   simp [h, bind, ExceptT.bind, ExceptT.mk, ExceptT.bindCont, StateT.bind, get, getThe, MonadStateOf.get,
     liftM, monadLift, MonadLift.monadLift, ExceptT.lift, StateT.get, ExceptT.run, pure, ExceptT.pure, StateT.pure, Functor.map, StateT.map]
   rfl
+
+/-! ### facts about `applyFunction` read off its code -/
+
+/-- a lookup never changes the state and never fails -/
+theorem C04.get_pure (key : String) (args : List Obj) (st : St) :
+    ∃ r, runM (cacheGet key args) st = (.ok r, st) := by
+  unfold cacheGet
+  rw [runM_bind, runM_get]
+  dsimp only
+  repeat' split
+  all_goals exact ⟨_, rfl⟩
+
+/-- the state after replaying a stored output: appended to the current writer -/
+def replayState (st : St) (output : Grol.Wire.Bytes) : St :=
+  if output.isEmpty then st else
+    match st.outs with
+    | [] => { st with outs := [[output]] }
+    | o :: rest => { st with outs := (output :: o) :: rest }
+
+/-- (a) replay: on a cache hit `applyFunction` returns the stored result, and the state changes
+only by appending the stored output to the current writer (nothing at all for an empty output) -/
+theorem C04.replay (fuel : Nat) (f : FuncVal) (args : List Obj) (st : St) (v : Obj) (output : Grol.Wire.Bytes)
+    (h : outcome (cacheGet f.key args) st = .ok (some (v, output))) :
+    outcome (applyFunction (fuel + 1) (.func f) args) st = .ok v ∧
+    stateAfter (applyFunction (fuel + 1) (.func f) args) st = replayState st output := by
+  obtain ⟨r, hr⟩ := C04.get_pure f.key args st
+  rw [outcome_eq, hr] at h
+  cases h
+  rw [outcome_eq, stateAfter_eq]
+  unfold applyFunction
+  rw [runM_bind, hr]
+  unfold replayState
+  dsimp only
+  by_cases ho : output.isEmpty = true
+  · simp only [ho, Bool.not_true, Bool.false_eq_true, if_false, if_true]
+    exact ⟨rfl, rfl⟩
+  · simp only [ho, Bool.not_false, if_true]
+    rw [runM_bind]
+    unfold writeOut
+    rw [runM_modify]
+    exact ⟨rfl, rfl⟩
+
+theorem cache_writeOut (b : Grol.Wire.Bytes) (st : St) : (runM (writeOut b) st).2.cache = st.cache ∧
+    ∃ s', runM (writeOut b) st = (.ok (), s') := by
+  unfold writeOut
+  rw [runM_modify]
+  refine ⟨?_, _, rfl⟩
+  dsimp only
+  split <;> rfl
+
+theorem cache_triggerNoCache (e : Nat) (st : St) : (runM (triggerNoCache e) st).2.cache = st.cache := by
+  unfold triggerNoCache modifyFrame
+  rw [runM_bind]
+  cases hfe : st.frames[e]? with
+  | some f =>
+    rw [runM_getFrame hfe]
+    unfold setFrame
+    dsimp only
+    rw [runM_modify]
+  | none =>
+    have : runM (getFrame e) st = (.error (.goPanic "nil environment"), st) := by
+      unfold getFrame
+      rw [runM_bind, runM_get]
+      simp only [hfe]
+      rfl
+    rw [this]
+
+/-- (b) store condition: the end of `applyFunction` (`finishCall`, run after the body with the
+callee frame's miss counter `before`/`after` the body) leaves the cache as it was whenever the
+counter moved or the result is an error: an entry is stored only for a pure, successful call -/
+theorem C04.store_condition (f : FuncVal) (args : List Obj) (curState before after : Nat) (cantCache : Bool)
+    (res : Obj) (output : Grol.Wire.Bytes) (st : St)
+    (h : (stateAfter (finishCall f args curState before after cantCache res output) st).cache ≠ st.cache) :
+    after = before ∧ res.isError = false := by
+  refine Classical.byContradiction (fun hn => h ?_)
+  rw [stateAfter_eq]
+  unfold finishCall
+  dsimp only
+  have key : ∀ s : St, s.cache = st.cache →
+      (runM (if (after != before) = true then
+          (if cantCache = true then triggerNoCache curState >>= fun _ => pure res else pure res)
+        else if res.isError = true then pure res else cacheSet f.key args res output >>= fun _ => pure res) s).2.cache
+        = st.cache := by
+    intro s hs
+    by_cases hab : after = before
+    · have hres : res.isError = true := by
+        cases hr : res.isError with
+        | true => rfl
+        | false => exact (hn ⟨hab, hr⟩).elim
+      subst hab
+      simp only [bne_self_eq_false, Bool.false_eq_true, if_false, hres, if_true]
+      rw [runM_pure]; exact hs
+    · have : (after != before) = true := by simpa using hab
+      simp only [this, if_true]
+      split
+      · rw [runM_bind]
+        have h1 := cache_triggerNoCache curState s
+        generalize runM (triggerNoCache curState) s = p at h1
+        obtain ⟨r, s'⟩ := p
+        cases r with
+        | ok _ => dsimp only at h1 ⊢; rw [runM_pure]; dsimp only; rw [h1, hs]
+        | error _ => dsimp only at h1 ⊢; rw [h1, hs]
+      · rw [runM_pure]; exact hs
+  split
+  · rw [runM_bind]
+    obtain ⟨hc, s', hs'⟩ := cache_writeOut output st
+    rw [hs'] at hc ⊢
+    exact key s' hc
+  · exact key st rfl
+
+/-- (c) a lookup with key-equal hashable arguments, right after a store, returns the stored pair -/
+theorem C04.set_get (key : String) (args args' : List Obj) (res : Obj) (out : Grol.Wire.Bytes) (st : St)
+    (hon : st.cfg.cacheOn = true) (hlen : args.length ≤ st.cfg.maxArgs) (hh : hashableList st.cfg args = true)
+    (hlen' : args'.length ≤ st.cfg.maxArgs) (hh' : hashableList st.cfg args' = true)
+    (heq : keyEqList args args' = true) :
+    outcome (cacheGet key args') (stateAfter (cacheSet key args res out) st) = .ok (some (res, out)) := by
+  have hset : stateAfter (cacheSet key args res out) st =
+      { st with cache := { key := key, args := args, result := res, output := out } ::
+        st.cache.filter (fun c => !(c.key == key && keyEqList c.args args)) } := by
+    rw [stateAfter_eq]
+    unfold cacheSet
+    rw [runM_bind, runM_get]
+    have h1 : ¬ (args.length > st.cfg.maxArgs) := by omega
+    simp only [hon, Bool.not_true, Bool.false_eq_true, if_false, h1, hh]
+    rfl
+  rw [hset, outcome_eq]
+  unfold cacheGet
+  rw [runM_bind, runM_get]
+  have h1 : ¬ (args'.length > st.cfg.maxArgs) := by omega
+  simp only [hon, Bool.not_true, Bool.false_eq_true, if_false, h1, hh', List.find?_cons, beq_self_eq_true, heq,
+    Bool.and_self]
+  rfl
+
+/-- non-vacuity of (c): a concrete store followed by a lookup with an equal key -/
+example : outcome (cacheGet "k" [.int 1, .str [97]])
+    (stateAfter (cacheSet "k" [.int 1, .str [97]] (.int 2) [104, 105]) (initState {})) = .ok (some (.int 2, [104, 105])) :=
+  C04.set_get "k" [.int 1, .str [97]] [.int 1, .str [97]] (.int 2) [104, 105] (initState {}) rfl (by decide) rfl (by decide) rfl
+    (by decide)
 
 end Grol.E
